@@ -58,8 +58,16 @@ func NewIndexers() *Indexers { return &Indexers{fns: map[string]client.IndexerFu
 
 // IndexField implements client.FieldIndexer.
 func (i *Indexers) IndexField(_ context.Context, obj client.Object, fieldName string, fn client.IndexerFunc) error {
-	gvk := obj.GetObjectKind().GroupVersionKind()
-	i.fns[gvk.Group+"/"+gvk.Kind+"/"+fieldName] = fn
+	kind := obj.GetObjectKind().GroupVersionKind().Kind
+	if kind == "" {
+		// typed objects carry no type meta: use the Go type name, which is the kind
+		t := reflect.TypeOf(obj)
+		for t.Kind() == reflect.Ptr {
+			t = t.Elem()
+		}
+		kind = t.Name()
+	}
+	i.fns[kind+"/"+fieldName] = fn
 	return nil
 }
 
@@ -292,7 +300,7 @@ func (c *Client) List(ctx context.Context, l client.ObjectList, opts ...client.L
 		if lo.FieldSelector != nil && !lo.FieldSelector.Empty() {
 			match := true
 			for _, req := range lo.FieldSelector.Requirements() {
-				fn := c.idx.fns[gvk.Group+"/"+gvk.Kind+"/"+req.Field]
+				fn := c.idx.fns[gvk.Kind+"/"+req.Field]
 				if fn == nil {
 					return fmt.Errorf("simapi: no index %q registered for %s", req.Field, gvk.Kind)
 				}
